@@ -15,7 +15,9 @@ def errName : Option Err → String
   | some .closed => "closed"
   | some .invalid => "invalid"
   | some .internal => "internal"
-  | some (.other n) => s!"other{n}"
+  -- tags from 100 on stand for a Closed-coded error handed back by the sink or source (which the
+  -- harness prints as "closed"); the model keeps it apart from the handler's own closed state
+  | some (.other n) => if n ≥ 100 then "closed" else s!"other{n}"
 
 def parseErr (s : String) : Option Err :=
   match s with
